@@ -76,17 +76,45 @@ def builder_summary(cx, cls, name):
 
 
 def decoder_summary(cx, cls, name):
+    """(final value of self._pointer in terms of its value on entry, substituted return expression, path)"""
     fn = cx.idx.find_method(cls, 'decode_' + name)
     if fn is None:
         return None, None
     best = None
     for p in cx.enum(fn, cls, max_depth=0):
-        st = annotate(p, heap=False)
-        adv = [ev for ev in p.ev if ev.kind == 'aug' and U(ev.a) == 'self._pointer']
+        st = annotate(p, heap=True)
+        final = st.heap.get('self._pointer')
         r = ret_expr(p)
-        if adv and r is not None:
-            best = (adv, r, p)
+        if final is not None and r is not None:
+            best = (final, r, p)
     return fn, best
+
+
+def _canon(expr):
+    """canonical form of the word pipeline: the spellings of a reversed copy -- list(reversed(X)), tuple(reversed(X)),
+    reversed(X), X[::-1] -- become REV(X); join over a list comprehension or a generator is the same thing"""
+    class T(ast.NodeTransformer):
+        def visit_Call(self, n):
+            n = self.generic_visit(n)
+            nm = callee_name(n)
+            if nm in ('list', 'tuple') and len(n.args) == 1 and isinstance(n.args[0], ast.Call) and callee_name(n.args[0]) == 'REV':
+                return n.args[0]
+            if nm == 'reversed' and isinstance(n.func, ast.Name) and len(n.args) == 1:
+                return ast.Call(func=ast.Name(id='REV', ctx=ast.Load()), args=n.args, keywords=[])
+            if nm == 'join' and len(n.args) == 1 and isinstance(n.args[0], ast.GeneratorExp):
+                n.args[0] = ast.ListComp(elt=n.args[0].elt, generators=n.args[0].generators)
+            return n
+
+        def visit_Subscript(self, n):
+            n = self.generic_visit(n)
+            sl = n.slice
+            if isinstance(sl, ast.Slice) and sl.lower is None and sl.upper is None and sl.step is not None:
+                st = sl.step
+                if (isinstance(st, ast.UnaryOp) and isinstance(st.op, ast.USub) and isinstance(st.operand, ast.Constant) and st.operand.value == 1) \
+                        or (isinstance(st, ast.Constant) and st.value == -1):
+                    return ast.Call(func=ast.Name(id='REV', ctx=ast.Load()), args=[n.value], keywords=[])
+            return n
+    return ast.fix_missing_locations(T().visit(clone(expr)))
 
 
 def run(ck, tier):
@@ -109,27 +137,27 @@ def run(ck, tier):
         n += 1
         ck.saw('functions', bf.qn)
         ck.saw('functions', df.qn)
-        adv, ret, path = dsum
-        # decoder: pointer advance and slice
-        step = adv[0].node.value
-        if name == 'string':
-            okadv = U(step) == df.params[1]
-        else:
-            okadv = cx.ce.try_ev(step, df.mod, d) == size
-        ck.ob('R1', df.qn, 'pointer advances by %s' % (size if size else 'the requested size'), okadv and len(adv) == 1,
-              detail='pointer-advance %s' % U(step), loc=cx.floc(df),
-              message='decode_%s advances the read pointer by %s, expected %s' % (name, U(step), size))
+        final, ret, path = dsum
+        # decoder: pointer advance and slice, both in terms of the pointer P0 on entry
+        p0 = Poly.atom('self._pointer')
+        try:
+            step = nzb.norm(final) - p0
+        except (NotInt, TypeError):
+            step = None
+        want = Poly.atom(df.params[1]) if name == 'string' else Poly.const(size)
+        ck.ob('R1', df.qn, 'pointer advances by %s' % (size if size else 'the requested size'), step == want,
+              detail='pointer-advance %s' % step, loc=cx.floc(df),
+              message='decode_%s advances the read pointer by %s, expected %s' % (name, step, want))
         slices = [x for x in ast.walk(ret) if isinstance(x, ast.Subscript) and U(x.value) == 'self._payload' and isinstance(x.slice, ast.Slice)]
         oksl = False
         if slices:
             sl = slices[0].slice
             try:
                 lo, hi = nzb.norm(sl.lower), nzb.norm(sl.upper)
-                want = Poly.atom(df.params[1]) if name == 'string' else Poly.const(size)
-                oksl = (hi - lo) == want and hi == Poly.atom('self._pointer')
+                oksl = lo == p0 and hi == p0 + want and sl.step is None
             except (NotInt, TypeError):
                 oksl = False
-        ck.ob('R1', df.qn, 'reads exactly the slice [pointer - n : pointer] after advancing', oksl,
+        ck.ob('R1', df.qn, 'reads exactly the slice [P0 : P0 + n] of the payload (P0 = pointer on entry)', oksl,
               detail='slice %s' % (U(slices[0]) if slices else 'none'), loc=cx.floc(df),
               message='decode_%s reads %s' % (name, U(slices[0]) if slices else None))
         if name == 'bits':
@@ -202,7 +230,7 @@ def run(ck, tier):
                             little = ev.a if eq else (not ev.a)
                         elif rhs == big:
                             little = (not ev.a) if eq else ev.a
-            e = _alpha(r)
+            e = _canon(_alpha(r))
             # replace the network-order image expression by a placeholder
             for node in ast.walk(e):
                 for field, val in ast.iter_fields(node):
@@ -227,8 +255,8 @@ def run(ck, tier):
                   detail='helpers-differ wordorder=%s' % ('Little' if lit else 'Big'), loc=cx.floc(up),
                   message='_pack_words does `%s` but _unpack_words does `%s`' % (prow[lit], urow[lit]))
     for lit, txt in prow.items():
-        ck.ob('R2', pk.qn, 'words are reversed iff wordorder is Little', ('reversed(' in txt) == bool(lit), detail='reversal wordorder-little=%s' % lit, loc=cx.floc(pk),
-              message='_pack_words %s the word list when wordorder little=%s' % ('reverses' if 'reversed(' in txt else 'does not reverse', lit))
+        ck.ob('R2', pk.qn, 'words are reversed iff wordorder is Little', ('REV(' in txt) == bool(lit), detail='reversal wordorder-little=%s' % lit, loc=cx.floc(pk),
+              message='_pack_words %s the word list when wordorder little=%s' % ('reverses' if 'REV(' in txt else 'does not reverse', lit))
         ck.ob('R2', pk.qn, "splits the network image into '!{n}H' words with n = WC[f]//2 and re-packs with byteorder + 'H'",
               "unpack('!" in txt.replace('"', "'") and 'H' in txt and "pack(self._byteorder + 'H'" in txt,
               detail='pipeline-shape little=%s' % lit, loc=cx.floc(pk), message='_pack_words pipeline is `%s`' % txt)
